@@ -95,7 +95,7 @@ fn buffer(r: &mut Rng) -> u16 {
     match r.below(4) {
         0 => 249,
         1 => 2048,
-        _ => r.range(249, 2049) as u16,
+        _ => r.range(249, 2048) as u16,
     }
 }
 
@@ -103,7 +103,7 @@ fn address(r: &mut Rng) -> u16 {
     match r.below(4) {
         0 => 0,
         1 => 65519,
-        _ => r.range(0, 65520) as u16,
+        _ => r.range(0, 65519) as u16,
     }
 }
 
@@ -115,7 +115,7 @@ pub fn configs(a: &ShardArgs, r: &mut Rng, rounds: usize) {
         let rx = match r.below(3) {
             0 => 2048u16,
             1 => 65535,
-            _ => r.range(2048, 65536) as u16,
+            _ => r.range(2048, 65535) as u16,
         };
         let (addr, tx) = (address(r), buffer(r));
         let f = ffi::MasterChannelConfig {
